@@ -188,10 +188,15 @@ theorem fr_rqDecode (s : BSt) (st : Stmt) : Fr s (rqDecode s st) := by
 
 theorem fr_rqMove (s : BSt) (i : Nat) (st : Stmt) (rest : List Stmt) (hq : (s.th i).qStmts = st :: rest) :
     Fr s (rqMove s i st rest) ∧ ((rqMove s i st rest).th i).buf ≠ [] := by
+  suffices h0 : Fr s (rqMove0 s i st rest) ∧ ((rqMove0 s i st rest).th i).buf ≠ [] by
+    unfold PB.rqMove fmtNote
+    split
+    · exact ⟨h0.1.trans (Fr.ofEq rfl rfl rfl rfl rfl rfl), h0.2⟩
+    · exact h0
   have hlt : i < s.ths.length := by
     apply Classical.byContradiction; intro hn
     rw [th_lt_or_default s i (by omega)] at hq; cases hq
-  unfold PB.rqMove
+  unfold PB.rqMove0
   have h1 := (fr_rqPrep s i).trans (fr_rqDecode (rqPrep s i) st)
   have hq2 : ((rqDecode (rqPrep s i) st).th i).qStmts = st :: rest := by
     have e1 : (rqDecode (rqPrep s i) st).th i = (rqPrep s i).th i := by
